@@ -18,13 +18,22 @@ Tie (this module):
     the enumeration costs >= v - tol and one costs <= v + tol, each by the interval tactic) ties the real
     spec to the implementation's value v; independently, a Python enumeration of all partial
     matchings (Fractions for bottleneck, floats for Wasserstein) is the predicate for those cases.
+  * the same laws on the other ways a diagram reaches the functions: MAGNITUDES (bars that are short against
+    their birth value: births at 5e2..1e6 with lifetimes 1e-3..4; whole diagrams at scale 1e-8..1e-10;
+    translations by 2^17..1e6, rescalings by 2^-30..1e-9) and CONTAINERS ("form" of a case: nested lists /
+    tuples, Fortran order, strided and negative-stride views, read-only arrays, extra columns after
+    (birth, death), float32 / int64 / int32 / uint16 where the coordinates are exact in that type).  The
+    spec side never sees the form: the relation is the same relation on the same (birth, death) lists.
+  * CALL HISTORIES (harness/history.py): pairwise loops, parameter sweeps and a rejected call followed by
+    clean calls, all in one interpreter on shared array objects; every step is an ordinary case and must
+    satisfy its own relation.  Inside every case equal-valued arguments are one object (d(S, S) aliases).
 """
 import itertools
 import math
 import random
 from fractions import Fraction
 
-from .. import core
+from .. import core, history
 
 PID = "C07"
 THEOREMS = [
@@ -47,9 +56,15 @@ RULE = ("seeded generator; each case is one instance of one law {sym, perm(zero)
         "dyadic grid with ties, near-diagonal, repeated points, heavy-tailed persistence} with 5-60 points "
         "(thorough 50-300), plus small exact cases {bruteB: <=3+3 dyadic points, value must equal the Coq "
         "brute-force spec twin; bruteW: <=3+3 points, interval certificate that the spec minimum is within 1e-9 "
-        "of the value}; a case is non-trivial when the "
+        "of the value}; magnitude families {late: births at 5e2/1e3/1e5/1e6 with lifetimes below 1e-5 of the birth "
+        "value, T partly a lifetime-sized jitter of S; tiny: uniform diagrams at scale 1e-8/1e-9/1e-10/2^-30} for "
+        "every law and for bruteW, translations up to 1e6 and rescalings down to 2^-30; container forms {list, "
+        "tuples, Fortran, strided, negative stride, read-only, extra column(s), float32, int64, int32, uint16 (the "
+        "integer / float32 forms on grids exact in that type)} for every law and for bruteB/bruteW; call histories "
+        "{pairwise, sweep, fault} of 5-6 such cases on shared array objects; a case is non-trivial when the "
         "relation passes and its reference value is non-zero (perm: the diagram has >= 2 distinct points; "
-        "brute: both diagrams non-empty or a positive value); distinct = distinct JSON input")
+        "brute: both diagrams non-empty or a positive value; history: >= 2 non-trivial steps); "
+        "distinct = distinct JSON input")
 TRUSTED_BASE = [
     "Coq 8.16.1 kernel; vm_compute for the brute-force twin of the bottleneck spec; coq-interval (incl. the "
     "stdlib's primitive-float/int63 specification axioms) for the per-case Wasserstein enclosures",
@@ -58,7 +73,9 @@ TRUSTED_BASE = [
     "bottleneck_value_unique / _exists / _nonneg / bottleneck_brute_is_bottleneck are closed under the global context",
     "specs Spec/PartialMatching.v, Spec/BottleneckS.v, Spec/WassersteinS.v (shared with C01/C02, whose theorems "
     "bottleneck_correct / wasserstein_correct carry the laws from the spec minimum to the models of the code)",
-    "harness: generators, float->exact-rational printer, relation predicates and their tolerance",
+    "harness: generators, float->exact-rational printer, relation predicates and their tolerance; the container "
+    "forms built by _args (the (birth, death) columns of every form are bit-equal to the case's lists, checked "
+    "before the call for the narrow types); call histories (harness/history.py)",
 ]
 ASSUMPTIONS = [
     "the laws reach the code through C01/C02 (model computes the spec minimum) and their ties; here the code is "
@@ -66,6 +83,12 @@ ASSUMPTIONS = [
     "binary64 rounding of the implementation is bounded by the 1e-9 tolerance, not proved",
     "Wasserstein laws with a zero / reordering / diagonal point / triangle need the diagram(s) on or above the "
     "diagonal (birth <= death); the bottleneck versions need nothing",
+    "extra columns: bottleneck ignores them (arbitrary values are generated); wasserstein's point-to-point cost "
+    "uses ALL columns, so for W the extra columns are constant over both diagrams, and the extra-column form is "
+    "not used for a W call with an empty side (persim.wasserstein raises ValueError for Mx3 against the empty "
+    "diagram on the unchanged tree: fixes/C07_wasserstein_extra_columns_vs_empty.patch)",
+    "relative tolerance: at coordinate scale m the relations are checked within 1e-9*m, so a change that only "
+    "shows below that (e.g. at 1e6, below 1e-3) is not seen by the late family",
 ]
 HASHSEEDS = ["0", "1", "2"]
 COQ_DEPS = ["Corr/MetricCorr.vo", "Corr/MetricCorrW.vo"]
@@ -97,10 +120,45 @@ def _dgm(rng, n, fam):
         # births below zero, deaths above: persistence large against the coordinates
         for _ in range(n):
             a = rng.uniform(2.5, 40); pts.append([-a + rng.uniform(-.3, .3), a + rng.uniform(-.3, .3)])
+    elif fam in LATE:
+        # short bars born late: lifetime / birth below 1e-5 (noise of a filtration with large values)
+        base, lo, hi = LATE[fam]
+        for _ in range(n):
+            b = base + rng.uniform(0, 1); pts.append([b, b + rng.uniform(lo, hi)])
+    elif fam in TINY:
+        # an ordinary diagram in very small units
+        k = TINY[fam]
+        for _ in range(n):
+            b = rng.uniform(-5, 10); pts.append([b * k, (b + rng.uniform(0, 4)) * k])
+    elif fam == "integer":
+        # non-negative integer coordinates (exact in every integer dtype down to uint16)
+        for _ in range(n):
+            b = rng.randint(0, 40); pts.append([float(b), float(b + rng.randint(0, 12))])
     else:  # heavy
         for _ in range(n):
             b = rng.uniform(0, 3); pts.append([b, b + rng.paretovariate(1.5) * 0.2])
     return pts
+
+
+LATE = {"late5e2": (5e2, 1e-3, 4e-3), "late1e3": (1e3, 1e-3, 9e-3), "late1e5": (1e5, 0.05, 0.9),
+        "late1e6": (1e6, 0.05, 4.0)}
+TINY = {"tiny1e-8": 1e-8, "tiny1e-9": 1e-9, "tiny1e-10": 1e-10, "tiny2^-30": 2.0 ** -30}
+MAGS = ["late5e2", "late1e3", "late1e3", "late1e5", "late1e6", "tiny1e-8", "tiny1e-9", "tiny1e-10", "tiny2^-30"]
+# container forms (see _args); the last four only on grids that are exact in the type
+FORMS = ["list", "tuples", "F", "strided", "revstride", "ro", "extra", "extra", "extra2", "f32", "i64", "i32", "u16"]
+FORMS_ANY = FORMS[:9]
+INT_FORMS = ("i64", "i32", "u16")
+
+
+def _jitter(rng, S, amp):
+    """S with every point moved by at most amp in each coordinate (never below the diagonal), a few dropped."""
+    T = []
+    for b, d in S:
+        if rng.random() < 0.9:
+            nb = b + rng.uniform(-amp, amp)
+            T.append([nb, max(nb, d + rng.uniform(-amp, amp))])
+    rng.shuffle(T)
+    return T
 
 
 def _repair(rng, S):
@@ -136,21 +194,47 @@ def _size(rng, tier):
     return rng.choice([50, 60, 80, 100, 100, 120, 150])
 
 
-def _mono_case(rng, law, dist, nS, nT, nB=None):
-    fam = rng.choice(FAMS)
+def _mono_case(rng, law, dist, nS, nT, nB=None, fam=None, form=None):
+    if form == "f32":
+        fam = "dyadic"
+    elif form in INT_FORMS:
+        fam = "integer"
+    given = fam is not None
+    fam = fam or rng.choice(FAMS)
     c = {"cls": law + ":" + dist, "law": law, "dist": dist, "fam": fam,
          "S": _dgm(rng, nS, fam), "T": _dgm(rng, nT, fam), "seed": rng.randrange(10 ** 6)}
+    if form:
+        c["form"] = form
+        c["cls"] += "/form"
+    if fam in LATE or fam in TINY:
+        c["cls"] += "/mag"
+        if rng.random() < 0.5:
+            # T a jitter of S of the size of the lifetimes, so that the optimal matching is not all-to-diagonal
+            amp = LATE[fam][2] / 2 if fam in LATE else TINY[fam]
+            c["T"] = _jitter(rng, c["S"], amp) or c["T"]
     if fam == "decimal" and law in ("translate", "BleW", "sym", "scale") and rng.random() < 0.7:
         c["T"] = _widen(rng, c["S"])
     if law == "translate":
-        c["c"] = rng.choice([1.0, -3.5, 17.25, 1e3, -250.0, rng.uniform(-50, 50)])
+        c["c"] = rng.choice([1.0, -3.5, 17.25, 1e3, -250.0, rng.uniform(-50, 50), 2.0 ** 17, 1e5, 1e6, -1e6])
+        if form == "f32":
+            c["c"] = rng.choice([1.0, -3.5, 17.25, 1e3, -250.0, 2.0 ** 17])
+        if form in INT_FORMS:
+            c["c"] = rng.choice([1.0, 17.0, 250.0, 1e3])
     if law == "scale":
-        c["c"] = rng.choice([0.5, 2.0, 3.0, 0.1, 1e3, 2.0 ** -20, 7.3, rng.uniform(0.01, 20)])
+        c["c"] = rng.choice([0.5, 2.0, 3.0, 0.1, 1e3, 2.0 ** -20, 7.3, rng.uniform(0.01, 20), 2.0 ** -30, 1e-9, 1e-8, 1e6])
+        if form == "f32":
+            c["c"] = rng.choice([0.5, 2.0, 3.0, 2.0 ** -20, 1e3, 2.0 ** -30])
+        if form in INT_FORMS:
+            c["c"] = rng.choice([2.0, 3.0, 10.0])
     if law == "diagpad":
-        c["DS"] = [rng.uniform(-5, 15) for _ in range(rng.randint(0, 4))]
-        c["DT"] = [rng.uniform(-5, 15) for _ in range(rng.randint(0 if c["DS"] else 1, 4))]
+        lo, hi = (min(p[0] for p in c["S"]), max(p[1] for p in c["S"])) if (fam in LATE or fam in TINY) else (-5, 15)
+        c["DS"] = [rng.uniform(lo, hi) for _ in range(rng.randint(0, 4))]
+        c["DT"] = [rng.uniform(lo, hi) for _ in range(rng.randint(0 if c["DS"] else 1, 4))]
+        if form == "f32" or form in INT_FORMS:
+            c["DS"] = [float(rng.randint(0, 15)) for _ in c["DS"]]
+            c["DT"] = [float(rng.randint(0, 15)) for _ in c["DT"]]
     if law == "triangle":
-        c["B"] = _dgm(rng, nB if nB is not None else nS, rng.choice([fam, rng.choice(FAMS)]))
+        c["B"] = _dgm(rng, nB if nB is not None else nS, fam if given else rng.choice([fam, rng.choice(FAMS)]))
         if rng.random() < 0.3:
             # S and T share births and deaths but pair them differently; S itself made consistent first
             c["S"] = _repair(rng, c["S"])
@@ -161,11 +245,11 @@ def _mono_case(rng, law, dist, nS, nT, nB=None):
         c["T"] = []
         c["side"] = rng.choice(["right", "left"])
     if law == "BleW":
-        c["dist"] = "BW"; c["cls"] = "BleW"
+        c["dist"] = "BW"; c["cls"] = "BleW" + c["cls"][len("BleW:B"):]
     return c
 
 
-def _brute_case(rng, dist):
+def _brute_case(rng, dist, form=None, fams=None):
     nS, nT = rng.randint(0, 3), rng.randint(0, 3)
     if dist == "B":
         S, T = _dgm(rng, nS, "dyadic"), _dgm(rng, nT, "dyadic")
@@ -186,12 +270,60 @@ def _brute_case(rng, dist):
         S = [[b * 2.0 ** s, d * 2.0 ** s] for b, d in S]
         T = [[b * 2.0 ** s, d * 2.0 ** s] for b, d in T]
     else:
-        fam = rng.choice(["uniform", "dyadic", "neardiag", "straddle"])
+        fam = rng.choice(fams or ["uniform", "dyadic", "neardiag", "straddle"])
         S, T = _dgm(rng, nS, fam), _dgm(rng, nT, fam)
         if rng.random() < 0.25 and len(S) >= 2:
             S = _repair(rng, S)
             T = _repair(rng, S)
-    return {"cls": "brute" + dist, "law": "brute", "dist": dist, "S": S, "T": T, "seed": 0}
+        if (fam in LATE or fam in TINY) and S and rng.random() < 0.5:
+            T = _jitter(rng, S, LATE[fam][2] / 2 if fam in LATE else TINY[fam])
+    c = {"cls": "brute" + dist, "law": "brute", "dist": dist, "S": S, "T": T, "seed": rng.randrange(10 ** 6) if form else 0}
+    if fams:
+        c["cls"] += "/mag"
+    if form:
+        c["form"] = form
+        c["cls"] += "/form"
+    return c
+
+
+def _histories(rng, n):
+    """Call histories: the steps are ordinary cases over a few diagrams, run in one interpreter on shared array
+    objects.  pairwise: the loop of a distance matrix; sweep: one pair under several rescalings / shifts /
+    paddings; fault: a call that persim rejects (or that raises half-way because a warning is an error) between
+    clean calls on the same objects."""
+    hs = []
+    for _ in range(n):
+        kind = rng.choice(["pairwise", "sweep", "fault"])
+        dist = rng.choice(["B", "W"])
+        fam = rng.choice(FAMS + ["late1e3", "tiny1e-9"])
+        form = rng.choice([None, None] + FORMS_ANY)
+        k = rng.choice([4, 6, 9, 14, 22])
+        D = [_dgm(rng, max(1, k + rng.randint(-2, 2)), fam) for _ in range(3)]
+
+        def step(law, S, T, d=dist, **kw):
+            c = _mono_case(rng, law, d, 1, 1, fam=fam, form=form)
+            c["cls"] = "step:" + c["cls"].split("/")[0]
+            c["S"], c["T"] = [list(p) for p in S], [list(p) for p in T]
+            if law == "triangle":
+                c["B"] = [list(p) for p in kw["B"]]
+            if law == "empty":
+                c["T"] = []
+            return c
+        if kind == "pairwise":
+            steps = [step("triangle", D[0], D[1], B=D[2]), step("sym", D[1], D[2]), step("empty", D[0], []),
+                     step("perm", D[0], D[0]), step("BleW", D[0], D[2]), step("sym", D[0], D[1])]
+        elif kind == "sweep":
+            steps = [step("scale", D[0], D[1]), step("translate", D[0], D[1]), step("scale", D[0], D[1]),
+                     step("diagpad", D[0], D[1]), step("perminv", D[0], D[1]), step("sym", D[0], D[1])]
+        else:
+            bad = {"fault": True, "cls": "step:fault", "law": "fault", "dist": dist, "S": [list(p) for p in D[0]],
+                   "T": [list(p) for p in D[1]], "bad": rng.choice(["onecol", "infwarn", "ragged", "threedim"]), "seed": 0}
+            if form:
+                bad["form"] = form
+            steps = [step("sym", D[0], D[1]), bad, step("sym", D[0], D[1]), step("empty", D[0], []),
+                     dict(bad, S=bad["T"], T=bad["S"]), step("perm", D[1], D[1]), step("triangle", D[0], D[1], B=D[2])]
+        hs.append(history.make(kind, steps))
+    return hs
 
 
 def generate(rng, tier):
@@ -241,7 +373,27 @@ def generate(rng, tier):
         cases.append(_brute_case(rng, "B"))
     for _ in range(nb // 3):
         cases.append(_brute_case(rng, "W"))
-    return cases
+    # magnitudes and container forms: every law for both distances, small sizes (the relation does not need size)
+    small = [3, 5, 8, 12, 20, 30] if tier == "quick" else [5, 12, 30, 50, 80]
+    for _ in range(1 if tier == "quick" else 12):
+        for law in LAWS:
+            for dist in ("B", "W"):
+                if law == "BleW" and dist == "W":
+                    continue
+                n = rng.choice(small)
+                cases.append(_mono_case(rng, law, dist, n, max(1, n + rng.randint(-n // 3, n // 3)), fam=rng.choice(MAGS)))
+                n = rng.choice(small)
+                cases.append(_mono_case(rng, law, dist, n, max(1, n + rng.randint(-n // 3, n // 3)), form=rng.choice(FORMS)))
+    # the closed forms against the empty diagram and B <= W at every magnitude, at a size of a hundred or two
+    for fam in (MAGS if tier != "quick" else rng.sample(MAGS, 3)):
+        n = rng.choice([90, 130, 200])
+        cases.append(_mono_case(rng, "empty", "W", n, 0, fam=fam))
+        cases.append(_mono_case(rng, "BleW", "B", n // 3, n // 3 - 3, fam=fam))
+    for _ in range(60 if tier == "quick" else 500):
+        cases.append(_brute_case(rng, "B", form=rng.choice(FORMS_ANY + ["f32"])))
+    for _ in range(12 if tier == "quick" else 120):
+        cases.append(_brute_case(rng, "W", fams=MAGS, form=rng.choice([None] + FORMS_ANY)))
+    return cases + _histories(rng, 8 if tier == "quick" else 100)
 
 
 def corpus():
@@ -268,7 +420,8 @@ def search_generate(rng, n):
             out.append(_brute_case(rng, dist))
         else:
             k = rng.choice([2, 3, 5, 8, 12, 40])
-            out.append(_mono_case(rng, law, dist, k, max(1, k - rng.randint(0, 2))))
+            out.append(_mono_case(rng, law, dist, k, max(1, k - rng.randint(0, 2)),
+                                  fam=rng.choice([None, None, rng.choice(MAGS)]), form=rng.choice([None, None] + FORMS)))
     return out
 
 
@@ -316,26 +469,100 @@ def calls_of(c):
     raise ValueError(law)
 
 
-def impl_run(cases):
+def _build(np, X, eff):
+    """The argument object for the diagram X (list of [birth, death]) in the effective form eff.  Whatever the
+    form, columns 0 and 1 of the result are bit-equal to X (the narrow types fall back to float64 otherwise)."""
+    A = np.array(X, dtype=float).reshape(-1, 2)
+    n = A.shape[0]
+    if eff == "list":
+        return [[float(b), float(d)] for b, d in X]
+    if eff == "tuples":
+        return [(float(b), float(d)) for b, d in X]
+    if eff == "F":
+        return np.asfortranarray(A)
+    if eff == "strided":
+        big = np.full((2 * n + 1, 5), 7.7e5)
+        big[1::2, 1:3] = A
+        return big[1::2, 1:3]
+    if eff == "revstride":
+        return np.ascontiguousarray(A[::-1])[::-1]
+    if eff == "ro":
+        A.setflags(write=False)
+        return A
+    if eff in ("extraB", "extra2B"):
+        r = random.Random(1000003 * n + len(eff))
+        cols = [[r.choice([0.0, 1.0, 2.0, r.uniform(-30, 30)]) for _ in range(n)] for _ in range(1 if eff == "extraB" else 2)]
+        return np.column_stack([A] + [np.array(col, dtype=float).reshape(n) for col in cols])
+    if eff == "extraW":
+        return np.column_stack([A, np.full(n, 1.0)])
+    if eff == "extra2W":
+        return np.column_stack([A, np.full(n, 1.0), np.full(n, -2.5)])
+    if eff in ("f32", "i64", "i32", "u16"):
+        dt = {"f32": np.float32, "i64": np.int64, "i32": np.int32, "u16": np.uint16}[eff]
+        if n == 0 or (eff == "u16" and (A.min() < 0 or A.max() > 60000)) or (eff != "f32" and np.abs(A).max() > 2e9):
+            return A if n else np.zeros((0, 2), dtype=dt)
+        with np.errstate(all="ignore"):
+            Z = A.astype(dt)
+        return Z if (Z.astype(float) == A).all() else A
+    return A
+
+
+def _args(np, memo, d, X, Y, form):
+    """The two argument objects of one call.  Equal-valued diagrams in the same form are ONE object for the whole
+    memo (a case, or all steps of a history)."""
+    eff = form or "f64"
+    if eff in ("extra", "extra2"):
+        # wasserstein's point-to-point cost reads every column: constant extra columns there, and none against
+        # an empty diagram (see ASSUMPTIONS)
+        eff = (eff + d) if (d == "B" or (len(X) and len(Y))) else "f64"
+    return [history.intern(memo, ["arr", eff, Z], lambda Z=Z: _build(np, Z, eff)) for Z in (X, Y)]
+
+
+def _fault_call(np, fn, c, memo):
+    """A call persim cannot answer (or that raises half-way): whatever it does, only the later steps are judged."""
+    import warnings
+    ax, ay = _args(np, memo, c["dist"], c["S"], c["T"], c.get("form"))
+    bad = c.get("bad")
+    try:
+        if bad == "onecol":
+            by = np.array(c["T"], dtype=float).reshape(-1, 2)[:, :1]
+        elif bad == "ragged":
+            by = [list(p) for p in c["T"]] + [[1.0]]
+        elif bad == "threedim":
+            by = np.array(c["T"], dtype=float).reshape(-1, 2)[None, :, :]
+        else:  # infwarn: the infinite bar is announced by a warning, which this caller treats as an error
+            by = np.array([list(p) for p in c["T"]] + [[0.5, float("inf")]], dtype=float)
+        with warnings.catch_warnings():
+            warnings.simplefilter("error")
+            v = fn[c["dist"]](ax, by)
+        return {"fault": "returned", "val": repr(v)[:60]}
+    except BaseException as e:
+        if isinstance(e, (KeyboardInterrupt, SystemExit)):
+            raise
+        return {"fault": type(e).__name__, "msg": str(e)[:120]}
+
+
+def impl_call(c, memo):
+    """All evaluations of one case; argument objects interned in memo (shared with the other steps of a history)."""
     import numpy as np
     from persim import bottleneck, wasserstein
     fn = {"B": bottleneck, "W": wasserstein}
-    outs = []
-    for c in cases:
-        def call():
-            vals = []
-            for d, X, Y in calls_of(c):
-                ax = np.array(X, dtype=float).reshape(-1, 2)
-                ay = np.array(Y, dtype=float).reshape(-1, 2)
-                vals.append(float(fn[d](ax, ay)))
-            return {"vals": vals}
-        try:
-            outs.append(call())
-        except BaseException as e:  # RecursionError etc. are the point of the size monitor
-            if isinstance(e, (KeyboardInterrupt, SystemExit)):
-                raise
-            outs.append({"error": type(e).__name__, "msg": str(e)[:200]})
-    return outs
+    if c.get("fault"):
+        return _fault_call(np, fn, c, memo)
+    try:
+        vals = []
+        for d, X, Y in calls_of(c):
+            ax, ay = _args(np, memo, d, X, Y, c.get("form"))
+            vals.append(float(fn[d](ax, ay)))
+        return {"vals": vals}
+    except BaseException as e:  # RecursionError etc. are the point of the size monitor
+        if isinstance(e, (KeyboardInterrupt, SystemExit)):
+            raise
+        return {"error": type(e).__name__, "msg": str(e)[:200]}
+
+
+def impl_run(cases):
+    return [history.run(c, impl_call) if history.is_hist(c) else impl_call(c, {}) for c in cases]
 
 
 # --------------------------------------------------------------------------- the spec side
@@ -389,6 +616,8 @@ def _close(a, b, tol):
 
 
 def predicate(c, o):
+    if history.is_hist(c):
+        return history.predicate(c, o, predicate)
     if "error" in o:
         return False, "exception: %s %s" % (o["error"], o.get("msg", ""))
     v = o["vals"]
@@ -433,6 +662,8 @@ def predicate(c, o):
 
 
 def nontrivial(c, o):
+    if history.is_hist(c):
+        return history.nontrivial(c, o, nontrivial)
     if "error" in o:
         return False
     v = o["vals"]
@@ -485,7 +716,7 @@ def coq_judge(cases, outs, results):
     verdicts = [None] * len(cases)
     terms, idx = [], []
     for i, (c, o) in enumerate(zip(cases, outs)):
-        if c["law"] == "brute" and c["dist"] == "B" and "error" not in o and o["vals"][0] == o["vals"][0] \
+        if c.get("law") == "brute" and c["dist"] == "B" and "error" not in o and o["vals"][0] == o["vals"][0] \
                 and abs(o["vals"][0]) != float("inf"):
             t = "brute_agrees %s %s %s" % (_coq_dgm(c["S"]), _coq_dgm(c["T"]), core.coq_Q(o["vals"][0]))
             if t in _cache:
@@ -504,7 +735,7 @@ def coq_judge(cases, outs, results):
             _cache[t] = verdicts[i]
     lem, lidx = [], []
     for i, (c, o) in enumerate(zip(cases, outs)):
-        if c["law"] == "brute" and c["dist"] == "W" and "error" not in o and o["vals"][0] == o["vals"][0] \
+        if c.get("law") == "brute" and c["dist"] == "W" and "error" not in o and o["vals"][0] == o["vals"][0] \
                 and abs(o["vals"][0]) != float("inf"):
             st = _w_lemma(c, o["vals"][0])
             if st[0] in _cache:
@@ -528,6 +759,9 @@ def coq_judge(cases, outs, results):
 # --------------------------------------------------------------------------- shrinking
 
 def shrink_candidates(c):
+    if history.is_hist(c):
+        yield from history.shrink(c)
+        return
     keys = [k for k in ("S", "T", "B") if c.get(k)]
     for k in keys:
         n = len(c[k])
@@ -545,3 +779,6 @@ def shrink_candidates(c):
     for k in ("DS", "DT"):
         if c.get(k):
             d = dict(c); d[k] = c[k][:-1]; yield d
+    if c.get("form"):
+        # the same relation on plain float64 arrays: then the container is not what matters
+        d = dict(c); del d["form"]; yield d
